@@ -75,6 +75,8 @@ def pstr(path):
                 out.append("promoted%d" % e[1])
             elif e[0] == "S":
                 out.append("*{%s}" % (e[1],))
+            elif e[0] == "K":
+                out.append("const%s" % (str(e[1])[:40],))
             else:
                 out.append(str(e))
         else:
@@ -171,6 +173,8 @@ class Interp:
                 v = self._read(st, path)
                 if v[0] == "ref":
                     path = v[1]
+                elif v[0] in ("bytes", "s"):
+                    path = (("K", v),)
                 elif v[0] == "sym":
                     path = (("S", v[1]),)
                 else:
@@ -237,6 +241,11 @@ class Interp:
                             return self._compose(st, pre, v)
                 return v
         root = path[0]
+        if root[0] == "K":
+            v = root[1]
+            for k in range(1, len(path)):
+                v = self._project(v, path[k], path[:k + 1])
+            return v
         if root[0] == "P":
             self._load_promoted(st, root[1])
             if (root,) in st.env:
@@ -319,6 +328,12 @@ class Interp:
             return SYM("const:" + c["constitem"])
         if "zst" in c:
             return UNIT
+        if c.get("opaque") == "indirect" and isinstance(c.get("repr"), str) and c["repr"].startswith('b"'):
+            import ast
+            try:
+                return ("bytes", tuple(ast.literal_eval(c["repr"])))
+            except Exception:
+                return TOP
         return TOP
 
     def eval_operand(self, st, o):
@@ -1132,6 +1147,19 @@ def m_end_elem(which):
     return model
 
 
+def m_len(interp, st, t, args, bb):
+    v = args[0]
+    for _ in range(3):
+        if v[0] == "ref":
+            p = v[1]
+            while p and p[-1] == ("f", "<content>"):
+                p = p[:-1]
+            v = interp.resolve(st, interp._read(st, p))
+    if v[0] in ("bytes", "s"):
+        return [(st, I(len(v[1]) if v[0] == "bytes" else len(v[1].encode())))]
+    return None
+
+
 def m_bool_is_positive(interp, st, t, args, bb):
     v = interp.resolve(st, args[0])
     return [(s2, B(r)) for s2, r in (interp._cmp_split(st, "Gt", v, I(0)) if v[0] == "sym" else [(st, v[1] > 0)])]
@@ -1201,6 +1229,8 @@ DEFAULT_MODELS = {
     "alloc::vec::Vec::clear": m_clear,
     "alloc::string::String::new": m_new_empty,
     "alloc::vec::Vec::new": m_new_empty,
+    "[T]::len": m_len,
+    "str::len": m_len,
     "[T]::last_mut": m_end_elem("last"),
     "[T]::first_mut": m_end_elem("first"),
     "[T]::last": m_end_elem("last"),
